@@ -45,7 +45,10 @@ theorem skel_handleCall_shape :
 /-- `handleCtxAsync`: when the subscription context is done, one `xrpc.cancel [id]` with the subscribing call's id is written. -/
 theorem skel_handleCtxAsync_shape :
     Generated.skel_handleCtxAsync = [
-  "<-actx.Done()",
+  "select",
+  "  case <-actx.Done()",
+  "  case <-c.exiting",
+  "    return",
   "rp, err := json.Marshal([]param{{v: reflect.ValueOf(id)}})",
   "if err != nil",
   "  return",
